@@ -566,6 +566,8 @@ class BuiltinsMixin:
             except IndexError:
                 raise RaiseSig(SExc(exc_class("IndexError")), self.lineno)
         if isinstance(obj, SDict):
+            if getattr(obj, "sym_items", None):
+                raise Unsupported("lookup in a dict that received symbolic keys")
             if isinstance(idx, (SStr, SInt)):
                 return self.dict_select(obj, idx)
             try:
@@ -684,6 +686,12 @@ class BuiltinsMixin:
             return
         if isinstance(obj, SDict) and (idx is None or isinstance(idx, (str, int, bytes, tuple))):
             obj.items[idx] = v
+            return
+        if isinstance(obj, SDict) and isinstance(idx, (SStr, SInt)):
+            # a symbolic key: kept as a write-only overflow entry (reads of such a dict are outside the subset)
+            if not hasattr(obj, "sym_items"):
+                obj.sym_items = []
+            obj.sym_items.append((idx, v))
             return
         if isinstance(obj, SMap):
             k = self.to_z3(idx)
@@ -991,6 +999,14 @@ class BuiltinsMixin:
         return self.wrap_str(z3.Concat(*parts) if len(parts) > 1 else parts[0], self.kind_of(sep))
 
     def m_text_find(self, s, sub, *rest):
+        if len(rest) == 1:
+            start = self.resolve(rest[0])
+            if isinstance(s, (str, bytes)) and isinstance(sub, (str, bytes)) and isinstance(start, int):
+                return s.find(sub, start)
+            st = self.to_z3(start, "int")
+            if not self.spec and self.run.branch(st < 0):
+                raise Unsupported("find with a negative start")
+            return self.wrap_int(z3.IndexOf(self.to_z3(s), self.to_z3(sub), st))
         if rest:
             raise Unsupported("find with offsets")
         if isinstance(s, (str, bytes)) and isinstance(sub, (str, bytes)):
@@ -998,6 +1014,22 @@ class BuiltinsMixin:
         return self.wrap_int(z3.IndexOf(self.to_z3(s), self.to_z3(sub), z3.IntVal(0)))
 
     def m_text_rfind(self, s, sub, *rest):
+        if len(rest) == 1:
+            # s.rfind(sub, start): last occurrence at or after start (start >= 0), by its defining property
+            start = self.resolve(rest[0])
+            if isinstance(s, (str, bytes)) and isinstance(sub, (str, bytes)) and isinstance(start, int):
+                return s.rfind(sub, start)
+            e, zs = self.to_z3(s), self.to_z3(sub)
+            st = self.to_z3(start, "int")
+            if not self.spec and self.run.branch(st < 0):
+                raise Unsupported("rfind with a negative start")
+            r = z3.Int(self.run.fresh("rfind"))
+            ls = z3.Length(zs)
+            tail = z3.SubString(e, r + 1, z3.Length(e))
+            found = z3.And(r >= st, r + ls <= z3.Length(e), z3.SubString(e, r, ls) == zs, z3.Not(z3.Contains(tail, zs)))
+            none = z3.And(r == -1, z3.Not(z3.Contains(z3.SubString(e, st, z3.Length(e)), zs)))
+            self.run.assume(z3.Or(found, none))
+            return self.wrap_int(r)
         if rest:
             raise Unsupported("rfind with offsets")
         if isinstance(s, (str, bytes)) and isinstance(sub, (str, bytes)):
